@@ -30,6 +30,11 @@ type SpecEnv struct {
 	inOld    bool
 }
 
+// array values (the contents of a backing array as a mathematical map from address to element)
+var arr64T types.Type = types.NewArray(types.Typ[types.Uint64], 1<<40)
+var arr16T types.Type = types.NewArray(types.Typ[types.Uint16], 1<<40)
+var arr32T types.Type = types.NewArray(types.Typ[types.Uint32], 1<<40)
+
 var specInt types.Type = types.Typ[types.Int]
 var specBoolT types.Type = types.Typ[types.Bool]
 var specWord types.Type = types.Typ[types.Uint64]
@@ -56,6 +61,14 @@ func (e *Exec) resolveType(tpkg *types.Package, s string) types.Type {
 	key := tpkg.Path() + "::" + s
 	if t, ok := e.typeCache[key]; ok {
 		return t
+	}
+	switch s {
+	case "arr64":
+		return arr64T
+	case "arr16":
+		return arr16T
+	case "arr32":
+		return arr32T
 	}
 	tv, err := types.Eval(e.prog.Fset, tpkg, token.NoPos, s)
 	if err != nil || tv.Type == nil {
@@ -671,6 +684,37 @@ func (e *Exec) trCall(x *SCall, env *SpecEnv) TV {
 		w := e.tr(x.Args[0], env)
 		e.needPopcnt()
 		return TV{mk(SInt, "popcnt", w.T), specInt}
+	case "arr":
+		// the backing array of a slice as a value
+		argn(1)
+		v := e.tr(x.Args[0], env)
+		sl, ok := types.Unalias(v.Ty).Underlying().(*types.Slice)
+		if !ok {
+			e.specFail("arr() of a non-slice")
+		}
+		key := elemKey(sl.Elem())
+		e.heapInit(key, sl.Elem())
+		m := e.heapMetas[key]
+		return TV{Select(e.heapGet(env.cur, key), SRef(v.T), ArraySort(SInt, m.vsort)), types.NewArray(sl.Elem(), 1<<40)}
+	case "aget":
+		argn(2)
+		a := e.tr(x.Args[0], env)
+		i := e.tr(x.Args[1], env)
+		at, ok := types.Unalias(a.Ty).Underlying().(*types.Array)
+		if !ok {
+			e.specFail("aget() of a non-array value")
+		}
+		return TV{Select(a.T, i.T, e.elemSort(at.Elem())), at.Elem()}
+	case "astore":
+		argn(3)
+		a := e.tr(x.Args[0], env)
+		i := e.tr(x.Args[1], env)
+		v := e.tr(x.Args[2], env)
+		at, ok := types.Unalias(a.Ty).Underlying().(*types.Array)
+		if !ok {
+			e.specFail("astore() of a non-array value")
+		}
+		return TV{Store(a.T, i.T, e.toSort(v.T, e.elemSort(at.Elem()))), a.Ty}
 	case "word":
 		argn(1)
 		v := e.tr(x.Args[0], env)
@@ -747,6 +791,9 @@ func (e *Exec) trCall(x *SCall, env *SpecEnv) TV {
 		if pb, ok := pt.Underlying().(*types.Basic); ok && pb.Kind() == types.Uint64 {
 			want = args[i].T.Sort // uint64 parameters take either view
 		}
+		if at, ok := pt.Underlying().(*types.Array); ok {
+			want = ArraySort(SInt, e.elemSort(at.Elem()))
+		}
 		if isNilTV(args[i]) {
 			args[i] = TV{e.nilOf(pt), pt}
 		}
@@ -822,6 +869,9 @@ func (e *Exec) recursiveSpecCall(sf *SpecFunc, args []TV, env *SpecEnv) TV {
 		for _, p := range sf.Params {
 			pt := e.resolveType(sfPkg, p.Type)
 			ps := e.sortOf(pt)
+			if at, ok := pt.Underlying().(*types.Array); ok {
+				ps = ArraySort(SInt, e.elemSort(at.Elem()))
+			}
 			n.vars[p.Name] = TV{Term{"p!" + p.Name, ps}, pt}
 			formals = append(formals, fmt.Sprintf("(p!%s %s)", p.Name, ps))
 		}
